@@ -1,6 +1,8 @@
 package main
 
 import (
+	"reflect"
+	"runtime"
 	"errors"
 	"fmt"
 	"math"
@@ -305,7 +307,8 @@ func ekind(err error) string {
 }
 
 // the output names of the node under test (LSTM reads how many results are asked for)
-var nodeOutputs []string
+var defaultNodeOutputs = []string{"y"} // nodes of real graphs name their outputs; a name is all an output-name-keyed memo needs
+var nodeOutputs = defaultNodeOutputs
 
 // run one operator the way Model.applyOp does, under recover; the observed outcome as Gallina
 func observe(op string, attrs []attr, ins []tensor.Tensor) (obs string) {
@@ -371,7 +374,218 @@ func emitOp(cw *caseWriter, op string, attrs []attr, mkIns func() []tensor.Tenso
 //     state behind that changes a later Apply).
 var effectsAll = goOnlyResult{Stream: "effects_all_streams", Rule: "every operator case generated by the operator-level streams (C03, C04, C05, C07, C08, C09, C10, C11, C06 generators): deep snapshot (dtype, shape, payload bits) of every input after Init/ValidateInputs/Apply equals the snapshot before", Violations: []string{}}
 var reuseAll = goOnlyResult{Stream: "instance_reuse", Rule: "one operator instance (one Init) applied to the previous case's inputs and then to this case's inputs returns what a fresh instance returns for this case", Violations: []string{}}
+var refillAll = goOnlyResult{Stream: "input_buffer_refill", Rule: "the same input tensor OBJECTS are used twice with different contents: a fresh operator instance is applied to them, every input's backing array is then rotated by one element in place, and a fresh instance is applied again; the result must be what a fresh instance returns on fresh tensors holding the rotated data (nothing may be remembered per tensor identity, per name or per package)", Violations: []string{}}
+var sizeAll = goOnlyResult{Stream: "size_independence", Rule: "elementwise operators (unary, Cast, binary and PRelu on operands of one shape) applied to LARGE tensors -- the small case's data tiled to 4099, 8209 and 16411 elements (primes: no block size divides them), as a vector and as a matrix with a prime number of columns, under GOMAXPROCS = default, 3 and 7 -- must return, bit for bit, the small case's result tiled in the same way (an elementwise function has no size-dependent path)", Violations: []string{}}
+var sizeSeen = map[string]int{}
+var elementwiseOps = map[string]bool{"Abs": true, "Relu": true, "PRelu": true, "Sigmoid": true, "Tanh": true, "Sin": true, "Cos": true, "Tan": true, "Asin": true, "Acos": true, "Atan": true, "Sinh": true, "Cosh": true, "Asinh": true, "Acosh": true, "Atanh": true, "Not": true, "Cast": true,
+	"Add": true, "Sub": true, "Mul": true, "Div": true, "And": true, "Or": true, "Xor": true, "Equal": true, "Greater": true, "Less": true, "GreaterOrEqual": true, "LessOrEqual": true}
 var lastIns = map[string]func() []tensor.Tensor{}
+
+func tileTo(t tensor.Tensor, n int, shape []int) tensor.Tensor {
+	v := reflect.ValueOf(t.Data())
+	m := v.Len()
+	d := reflect.MakeSlice(v.Type(), n, n)
+	for i := 0; i < n; i++ {
+		d.Index(i).Set(v.Index(i % m))
+	}
+	return tensor.New(tensor.WithShape(shape...), tensor.WithBacking(d.Interface()))
+}
+
+// sizeObservation: only for cases whose non-nil inputs all have one non-scalar shape and whose small
+// result is one tensor of that shape; at most 12 cases per operator and attribute list
+func sizeObservation(op string, attrs []attr, mkIns func() []tensor.Tensor) {
+	small := mkIns()
+	var shape0 []int
+	for _, t := range small {
+		if t == nil {
+			continue
+		}
+		if len(t.Shape()) == 0 || reflect.ValueOf(t.Data()).Kind() != reflect.Slice {
+			return
+		}
+		if shape0 == nil {
+			shape0 = t.Shape().Clone()
+		} else if !t.Shape().Eq(tensor.Shape(shape0)) || len(t.Shape()) != len(shape0) {
+			return
+		}
+	}
+	if shape0 == nil || numel(shape0) < 2 {
+		return
+	}
+	ap := make([]string, len(attrs))
+	for i, x := range attrs {
+		ap[i] = x.gallina()
+	}
+	key := op + "|" + strings.Join(ap, ";")
+	if sizeSeen[key] >= 12 {
+		return
+	}
+	run := func(ins []tensor.Tensor) (out tensor.Tensor, obs string) {
+		defer func() {
+			if r := recover(); r != nil {
+				out, obs = nil, "OPanic"
+			}
+		}()
+		o, err := opset13.GetOperator(op)
+		if err != nil {
+			return nil, "OErr"
+		}
+		var aps []*onnx.AttributeProto
+		for _, a := range attrs {
+			aps = append(aps, a.proto())
+		}
+		if err := o.Init(&onnx.NodeProto{Attribute: aps, Output: nodeOutputs}); err != nil {
+			return nil, "OErr"
+		}
+		v, err := o.ValidateInputs(ins)
+		if err != nil {
+			return nil, "OErr"
+		}
+		res, err := o.Apply(v)
+		if err != nil || len(res) != 1 {
+			return nil, "OErr"
+		}
+		return res[0], "OOk"
+	}
+	sres, sobs := run(small)
+	if sobs != "OOk" || sres == nil || len(sres.Shape()) != len(shape0) || !sres.Shape().Eq(tensor.Shape(shape0)) || reflect.ValueOf(sres.Data()).Kind() != reflect.Slice {
+		return
+	}
+	sizeSeen[key]++
+	for _, n := range []int{4099, 8209, 16411} {
+		for _, shp := range [][]int{{n}, {n / 71, 71}} {
+			nn := numel(shp)
+			want := tval(tileTo(sres, nn, shp))
+			for _, procs := range []int{0, 3, 7} {
+				big := make([]tensor.Tensor, len(small))
+				for i, t := range mkIns() {
+					if t != nil {
+						big[i] = tileTo(t, nn, shp)
+					}
+				}
+				old := 0
+				if procs > 0 {
+					old = runtime.GOMAXPROCS(procs)
+				}
+				bres, bobs := run(big)
+				if procs > 0 {
+					runtime.GOMAXPROCS(old)
+				}
+				sizeAll.N++
+				got := bobs
+				if bres != nil {
+					got = tval(bres)
+				}
+				if got != want && len(sizeAll.Violations) < 10 {
+					k := 0
+					for k < len(got) && k < len(want) && got[k] == want[k] {
+						k++
+					}
+					sizeAll.Violations = append(sizeAll.Violations, fmt.Sprintf("%s [%s] on %d elements of shape %v (the data of %s tiled), GOMAXPROCS %d: result differs from the tiled small result from character %d on: got ...%s want ...%s", op, strings.Join(ap, ";"), nn, shp, clip(tvals(small), 200), procs, k, clip(got[maxInt(0, k-20):], 120), clip(want[maxInt(0, k-20):], 120)))
+				}
+			}
+		}
+	}
+}
+
+func maxInt(a, b int) int {
+	if a > b {
+		return a
+	}
+	return b
+}
+
+var attrOrderAll = goOnlyResult{Stream: "attribute_order", Rule: "a node's attributes are a set keyed by name: the same case with its attribute list reversed (only when the names are distinct) must have the same outcome -- in particular an attribute that makes Init refuse the node must do so wherever it stands", Violations: []string{}}
+var aliasAll = goOnlyResult{Stream: "aliased_operands", Rule: "when the first two inputs have one element type and shape: passing the SAME tensor object for both must give what passing the first input and a separate copy of it gives", Violations: []string{}}
+
+func attrOrderObservation(op string, attrs []attr, mkIns func() []tensor.Tensor, obs string) {
+	if len(attrs) < 2 {
+		return
+	}
+	seen := map[string]bool{}
+	for _, a := range attrs {
+		if seen[a.name] {
+			return
+		}
+		seen[a.name] = true
+	}
+	rev := make([]attr, len(attrs))
+	for i, a := range attrs {
+		rev[len(attrs)-1-i] = a
+	}
+	attrOrderAll.N++
+	if got := observe(op, rev, mkIns()); got != obs && len(attrOrderAll.Violations) < 10 {
+		ap := make([]string, len(attrs))
+		for i, x := range attrs {
+			ap[i] = x.gallina()
+		}
+		attrOrderAll.Violations = append(attrOrderAll.Violations, fmt.Sprintf("%s [%s] on %s gives %s, with the attribute list reversed %s", op, strings.Join(ap, ";"), clip(tvals(mkIns()), 300), clip(obs, 300), clip(got, 300)))
+	}
+}
+
+func aliasObservation(op string, attrs []attr, mkIns func() []tensor.Tensor) {
+	a := mkIns()
+	if len(a) < 2 || a[0] == nil || a[1] == nil || a[0].Dtype() != a[1].Dtype() || len(a[0].Shape()) != len(a[1].Shape()) || !a[0].Shape().Eq(a[1].Shape()) {
+		return
+	}
+	b := mkIns()
+	b[1] = b[0].Clone().(tensor.Tensor)
+	want := observe(op, attrs, b)
+	a[1] = a[0]
+	got := observe(op, attrs, a)
+	aliasAll.N++
+	if got != want && len(aliasAll.Violations) < 10 {
+		ap := make([]string, len(attrs))
+		for i, x := range attrs {
+			ap[i] = x.gallina()
+		}
+		aliasAll.Violations = append(aliasAll.Violations, fmt.Sprintf("%s [%s]: the same tensor object %s passed as both inputs gives %s, the tensor and a copy of it give %s", op, strings.Join(ap, ";"), clip(tvals(b[:1]), 300), clip(got, 300), clip(want, 300)))
+	}
+}
+
+// rotate every input's backing array by one element, in place (scalars and nil inputs are left alone)
+func rotateInPlace(ts []tensor.Tensor) {
+	for _, t := range ts {
+		if t == nil {
+			continue
+		}
+		func() {
+			defer func() { recover() }()
+			v := reflect.ValueOf(t.Data())
+			if v.Kind() != reflect.Slice || v.Len() < 2 {
+				return
+			}
+			first := reflect.New(v.Type().Elem()).Elem()
+			first.Set(v.Index(0))
+			for i := 0; i+1 < v.Len(); i++ {
+				v.Index(i).Set(v.Index(i + 1))
+			}
+			v.Index(v.Len() - 1).Set(first)
+		}()
+	}
+}
+
+func refillObservation(op string, attrs []attr, mkIns func() []tensor.Tensor) {
+	fresh := mkIns()
+	rotateInPlace(fresh)
+	shown := tvals(fresh)
+	want := observe(op, attrs, fresh)
+	objs := mkIns()
+	observe(op, attrs, objs)
+	if tvals(objs) != tvals(mkIns()) {
+		return // the call changed its inputs: that is the effects observation's business
+	}
+	rotateInPlace(objs)
+	got := observe(op, attrs, objs)
+	refillAll.N++
+	if got != want && len(refillAll.Violations) < 10 {
+		ap := make([]string, len(attrs))
+		for i, x := range attrs {
+			ap[i] = x.gallina()
+		}
+		refillAll.Violations = append(refillAll.Violations, fmt.Sprintf("%s [%s]: tensors that were used once and then refilled in place with %s give %s, fresh tensors with the same contents give %s", op, strings.Join(ap, ";"), clip(shown, 300), clip(got, 300), clip(want, 300)))
+	}
+}
 
 // Conv fills its attribute fields (dilations, kernel_shape, pads, strides) from its FIRST input when
 // they are absent; an instance re-used on another geometry is something Model.Run never does (one
@@ -389,6 +603,12 @@ func sideObservations(op string, attrs []attr, mkIns func() []tensor.Tensor, obs
 			ap[i] = x.gallina()
 		}
 		effectsAll.Violations = append(effectsAll.Violations, fmt.Sprintf("%s [%s]: inputs changed by the call: before %s after %s", op, strings.Join(ap, ";"), clip(a, 400), clip(b, 400)))
+	}
+	refillObservation(op, attrs, mkIns)
+	attrOrderObservation(op, attrs, mkIns, obs)
+	aliasObservation(op, attrs, mkIns)
+	if elementwiseOps[op] {
+		sizeObservation(op, attrs, mkIns)
 	}
 	if reuseSkip[op] && !convReuseTwin {
 		if op == "Conv" {
